@@ -227,9 +227,67 @@ def body_family_(prog, key):
     return body_family(prog, key)
 
 
+PERIOD_SAMPLES = ["10s", "1m", "1h", "1d", "1w", "90m", "1h30m", "2w3d", "1d2h3m4s", "5m5m", "4s3m2h1d", "0s", "007s", "1w1w1w", "18446744073709551615s", "30500568904943w",
+                  "", "10", "s", "m10", "10x", "10ms", "1hd", "2ww", "1h d", " 1h", "1h ", "10S", "1H", "+5s", "-5s", "1.5h", "1h30", "1h,30m", "1y", "ten s", "\u0661s",
+                  "18446744073709551616s", "99999999999999999999s", "18446744073709551615s1s", "30500568904943w1w", "30500568904944w", "307445734561825861m", "9223372036854775807s9223372036854775807s2s"]
+
+
+def period_oracle(t):
+    """the documented grammar: one or more <decimal number><unit>, unit in s m h d w, the whole string; seconds fit u64 at every step"""
+    import re as _re
+    if not _re.fullmatch(r"(?:[0-9]+[smhdw])+", t):
+        return None
+    total = 0
+    for nb, u in _re.findall(r"([0-9]+)([smhdw])", t):
+        n = int(nb)
+        if n >= 2 ** 64:
+            return None
+        v = n * UNITS[u]
+        if v >= 2 ** 64:
+            return None
+        total += v
+        if total >= 2 ** 64:
+            return None
+    return total
+
+
+def period_table(prog):
+    """parse_duration EVALUATED on the sample strings (nom combinators modelled in the interpreter): [(text, got, want)] or None"""
+    pd = prog.body("acmed::duration::parse_duration")
+    if pd is None:
+        return None
+    from ..absint import vstr
+    rows = []
+    for t in PERIOD_SAMPLES:
+        try:
+            r = run(pd, {1: Val("ref", vstr(t))}, None, max_steps=400000, follow=lambda cs: (cs.name or "").startswith("acmed::duration::"))
+        except Exception:
+            return None
+        rv = r.ret.deref() if r.kind == "return" and r.ret is not None else None
+        if rv is None or rv.k != "adt" or not rv.extra:
+            return None
+        if rv.extra[1] == "Ok":
+            v = rv.v[0].deref() if rv.v else None
+            if v is None or v.k != "int":
+                return None
+            got = v.v
+        else:
+            got = None
+        rows.append((t, got, period_oracle(t)))
+    return rows
+
+
 def check_period_grammar(ctx):
     prog = ctx.prog
     R5 = ctx.rule("R5", "period grammar: unit set = multiplier table = {s:1,m:60,h:3600,d:86400,w:604800}; checked arithmetic; whole-string match; parts summed")
+    tab = period_table(prog)
+    if tab is not None:
+        pd_ = prog.must_body("acmed::duration::parse_duration")
+        ctx.floor(R5, "evaluated period strings", len(tab), 40)
+        for t, got, want in tab:
+            ctx.require(R5, got == want, "%s:%s" % (pd_.file, pd_.line), "parse_duration(%r) = %s (documented grammar: %s)" % (t, "%ss" % got if got is not None else "error", "%ss" % want if want is not None else "error"),
+                        ["acmed::duration::parse_duration", "evaluated", t])
+        return
     # accepted unit characters
     ic = prog.must_body("acmed::duration::is_duration_chr")
     acc = set()
